@@ -626,7 +626,9 @@ func (e *Env) decodeSkeleton(l *facts.Level, v3 bool) {
 				okDeferred = false
 				c.Fail("deferred-error", who, p, "Decode carries on after a decodeOne error that was not seen to be 'unsupported metric'")
 			}
-			if s.Key() != r.Key() {
+			// remembered as it is, or inside one more errs.Wrap layer (which keeps it non-nil and keeps what it matches)
+			_, inner, isWrap := sentinelOf(s)
+			if s.Key() != r.Key() && !(isWrap && inner != nil && inner.Key() == r.Key()) {
 				okDeferred = false
 				c.Fail("deferred-error", who, p, "on a path where decodeOne failed and Decode carries on, the error is not remembered")
 			}
